@@ -682,6 +682,10 @@ def _arith(I, op, a, b):
         x, y = zint(a), zint(b)
         if I.st.branch(y == 0):
             raise PyExc('ZeroDivisionError')
+        if isinstance(op, ast.Mod) and not z3.is_int_value(z3.simplify(y)):
+            # symbolic modulus: linearise when 0 <= x < 2y is implied by the path condition
+            if not I.st.feasible(z3.Not(z3.And(x >= 0, x < 2 * y, y > 0))):
+                return SV(z3.simplify(z3.If(x < y, x, x - y)), 'int')
         # python floors toward -inf; z3 div/mod are euclidean (remainder >= 0)
         q = z3.If(y > 0, x / y, -((-x) / (-y)) if False else z3.If(x % y == 0, x / y, x / y - 0) )
         if isinstance(op, ast.FloorDiv):
